@@ -211,6 +211,34 @@ fn render(r: &mut Rng, secs: &[Sec], simple_meta: bool) -> Vec<u8> {
     s.into_bytes()
 }
 
+/// the canonical writer of lean/LopdfModel/Spec/CMapRender.lean, written again here: upper-case hex, one blank
+/// between tokens, LF line ends, count "1", fixed header and trailer
+fn render_canonical(secs: &[Sec]) -> Vec<u8> {
+    let code = |c: u32, len: u8| -> String { format!("<{}>", (0..len).rev().map(|i| format!("{:02X}", (c >> (8 * i as u32)) as u8)).collect::<String>()) };
+    let units = |t: &[u16]| -> String { format!("<{}>", t.iter().map(|u| format!("{:04X}", u)).collect::<String>()) };
+    let mut s = String::from("/CIDInit /ProcSet findresource begin\n12 dict begin\nbegincmap\n/CMapName /Adobe-Identity-UCS def\n/CMapType 2 def\n");
+    for sec in secs {
+        match sec {
+            Sec::Cs(rs) => { s.push_str("1 begincodespacerange\n"); for (lo, hi, len) in rs { s.push_str(&format!("{} {}\n", code(*lo, *len), code(*hi, *len))); } s.push_str("endcodespacerange\n"); }
+            Sec::Chars(ds) => {
+                s.push_str("1 beginbfchar\n");
+                for d in ds { if let Def::Char { code: c, len, dst } = d { s.push_str(&format!("{} {}\n", code(*c, *len), units(dst))); } }
+                s.push_str("endbfchar\n");
+            }
+            Sec::Ranges(ds) => {
+                s.push_str("1 beginbfrange\n");
+                for d in ds { if let Def::Range { lo, hi, len, dsts } = d {
+                    let t = if dsts.len() == 1 { units(&dsts[0]) } else { format!("[{}]", dsts.iter().map(|t| units(t)).collect::<Vec<_>>().join(" ")) };
+                    s.push_str(&format!("{} {} {}\n", code(*lo, *len), code(*hi, *len), t));
+                } }
+                s.push_str("endbfrange\n");
+            }
+        }
+    }
+    s.push_str("endcmap\nCMapName currentdict /CMap defineresource pop\nend\nend\n");
+    s.into_bytes()
+}
+
 // ------------------------------------------------------------------ protocol text
 
 fn code_tok(code: u32, len: u8) -> String { (0..len).rev().map(|i| format!("{:02x}", (code >> (8 * i as u32)) as u8)).collect() }
@@ -527,11 +555,11 @@ fn gen_inputs(r: &mut Rng, defs: &[Def]) -> Vec<(Vec<u8>, Vec<(u32, u8)>)> {
 
 // ------------------------------------------------------------------ one case
 
-struct Stats { strict: bool }
+struct Stats { strict: bool, canonical: bool }
 
 fn check_case(c: &mut Ctx, r: &mut Rng, stream: &str, secs: &[Sec], st: Stats, simple_meta: bool) {
     let defs = flatten(secs);
-    let text = render(r, secs, simple_meta);
+    let text = if st.canonical { render_canonical(secs) } else { render(r, secs, simple_meta) };
     let queries = gen_queries(r, &defs);
     let inputs = gen_inputs(r, &defs);
     let (doc, font) = make_doc(r, &text);
@@ -542,6 +570,7 @@ fn check_case(c: &mut Ctx, r: &mut Rng, stream: &str, secs: &[Sec], st: Stats, s
     let req_get = format!("cmap_get {}q{}", secs_tok, qtok);
     let req_tget = format!("cmap_text_get {} q{}", hex_tok(&text), qtok);
     c.nontrivial(&req_get);
+    if st.canonical { c.corr(format!("cmap_render {}", secs_tok.trim_end()), format!("ok {}", hex_tok(&text))); }
     for d in &defs {
         c.count(if d.is_single() { "defs.single" } else if d.is_array() { "defs.array" } else { "defs.multiunit" });
         c.count(&format!("defs.len{}", d.len()));
@@ -807,29 +836,36 @@ edits) and grammar (24 lines at and beyond the edges of the grammar) — corresp
         let Some(mut r) = c.case("single", i) else { continue };
         let defs = gen_defs(&mut r, Mode::SingleOnly);
         let secs = sectionize(&mut r, &defs);
-        check_case(c, &mut r, "single", &secs, Stats { strict: true }, false);
+        check_case(c, &mut r, "single", &secs, Stats { strict: true, canonical: false }, false);
     }
     for i in 0..c.n(1600, 30000) {
         let Some(mut r) = c.case("isolated", i) else { continue };
         let defs = gen_defs(&mut r, Mode::Isolated);
         let secs = sectionize(&mut r, &defs);
-        check_case(c, &mut r, "isolated", &secs, Stats { strict: true }, false);
+        check_case(c, &mut r, "isolated", &secs, Stats { strict: true, canonical: false }, false);
     }
     for i in 0..c.n(1600, 30000) {
         let Some(mut r) = c.case("wild", i) else { continue };
         let defs = gen_defs(&mut r, Mode::Wild);
         let secs = sectionize(&mut r, &defs);
-        check_case(c, &mut r, "wild", &secs, Stats { strict: false }, false);
+        check_case(c, &mut r, "wild", &secs, Stats { strict: false, canonical: false }, false);
     }
     for i in 0..c.n(1200, 25000) {
         let Some(mut r) = c.case("table", i) else { continue };
         let defs = gen_table_defs(&mut r);
         let secs = sectionize(&mut r, &defs);
-        check_case(c, &mut r, "table", &secs, Stats { strict: false }, false);
+        check_case(c, &mut r, "table", &secs, Stats { strict: false, canonical: false }, false);
     }
     for i in 0..c.n(1500, 25000) {
         let Some(mut r) = c.case("malformed", i) else { continue };
         malformed_case(c, &mut r);
+    }
+    // the canonical writer of Spec/CMapRender.lean (theorem cmap_parse_render): same text from both sides, read by the real parser
+    for i in 0..c.n(400, 6000) {
+        let Some(mut r) = c.case("canonical", i) else { continue };
+        let defs = gen_defs(&mut r, if i % 2 == 0 { Mode::Isolated } else { Mode::SingleOnly });
+        let secs = sectionize(&mut r, &defs);
+        check_case(c, &mut r, "canonical", &secs, Stats { strict: true, canonical: true }, true);
     }
     for i in 0..c.n(3 * N_QUIRKS, 40 * N_QUIRKS) {
         let Some(mut r) = c.case("grammar", i) else { continue };
